@@ -124,7 +124,9 @@ func (p *pools) close() {
 	}
 }
 
-var metricValue = map[string]string{"v0": "100", "v1": "200", "v2": "300"}
+// "nonnum": a valid, unexpired metric whose value is not a number (a holder stays healthy, a candidate cannot be
+// ranked); "bad" (absent / invalid flag / expired: the real monitor filters those) is scripted as no metric at all.
+var metricValue = map[string]string{"v0": "100", "v1": "200", "v2": "300", "nonnum": "not-a-number"}
 
 func dist(a, b [32]byte) []byte {
 	out := make([]byte, 32)
